@@ -278,6 +278,20 @@ def rule_chunks_to_while(text, counter):
         counter.hit("R8.chunks_to_while")
 
 
+def rule_map_ctor(text, counter):
+    """R12: `E.map(Ctor)` with a tuple-struct constructor used as a function value ->
+    match E { Some(vx_v) => Some(Ctor(vx_v)), None => None }"""
+    while True:
+        m = rc.mask(text)
+        mm = re.search(r"\.\s*map\s*\(\s*((?:Self|[A-Z][A-Za-z0-9_]*)(?:::[A-Z][A-Za-z0-9_]*)*)\s*\)", m)
+        if not mm:
+            return text
+        r0 = _receiver_start(m, mm.start())
+        recv = text[r0:mm.start()].strip()
+        text = text[:r0] + "(match %s { Some(vx_v) => Some(%s(vx_v)), None => None })" % (recv, mm.group(1)) + text[mm.end():]
+        counter.hit("R12.map_ctor")
+
+
 def rule_or_else(text, counter):
     """R11: `E.or_else(|| B)` -> match E { Some(vx_v) => Some(vx_v), None => B } (same evaluation order)."""
     while True:
@@ -369,7 +383,7 @@ def cut(file, path, include_test=False):
     sha = hashlib.sha256(raw.encode()).hexdigest()
     hdr = rc.enclosing_impl_header(src, path, m)
     text = rc.strip_comments(raw)
-    return Cut(file, path, text, hdr[0] if hdr else None, it.kind, sha)
+    return Cut(file, path, text, hdr[0] if hdr and hdr[1] in ("impl", "trait") else None, it.kind, sha)
 
 
 # --------------------------------------------------------------------------------------------
@@ -508,6 +522,8 @@ def apply_rewrite(t, rw, counter):
         t = rule_for_to_while(t, counter)
     elif rule == "R8.chunks":
         t = rule_chunks_to_while(t, counter)
+    elif rule == "R12":
+        t = rule_map_ctor(t, counter)
     elif rule == "R11":
         t = rule_or_else(t, counter)
     elif rule == "subst":
@@ -536,20 +552,30 @@ def apply_rewrite(t, rw, counter):
 
 
 def assemble(items_specs, mode, counter):
-    """returns (text, cuts).  Consecutive items of the same impl are regrouped into one impl block."""
+    """returns (text, cuts).  Consecutive items of the same impl/trait are regrouped into one block;
+    items with a `module` key are wrapped in `pub mod <module> { use super::*; .. }`."""
     cuts = [prepare_item(s, mode, counter) for s in items_specs]
     out = []
     cur_hdr = None
-    for c in cuts:
+    cur_mod = None
+    for c, spec in zip(cuts, items_specs):
         hdr = c.impl_header
-        if hdr != cur_hdr:
+        mod = spec.get("module")
+        if hdr != cur_hdr or mod != cur_mod:
             if cur_hdr is not None:
                 out.append("}\n")
+            if mod != cur_mod:
+                if cur_mod is not None:
+                    out.append("} // mod %s\n" % cur_mod)
+                if mod is not None:
+                    out.append("pub mod %s {\n    use super::*;\n" % mod)
+                cur_mod = mod
             if hdr is not None:
-                h = hdr
-                out.append(h + " {\n")
+                out.append(("pub " if mod and hdr.startswith("trait") else "") + hdr + " {\n")
             cur_hdr = hdr
         out.append(c.out.rstrip() + "\n\n")
     if cur_hdr is not None:
         out.append("}\n")
+    if cur_mod is not None:
+        out.append("} // mod %s\n" % cur_mod)
     return "".join(out), cuts
